@@ -22,7 +22,7 @@ func init() {
 			{"C13/no-reflect-mutators-in-EV", ruleC13NoReflectMutators},
 		},
 		Explanation: "Decides, for all schedules at once, the structural necessary condition of data-race freedom: no function reachable from Validate, ApplyDefaults, For/ForType, MarshalJSON, CloneSchemas, Equal or Resolve writes memory that was not allocated by the same call (field-sensitive, allocation-site based write-effect analysis over the call-graph closure of each entry point); package-level variables are written only during package initialisation, the two process-wide caches are sync.Maps whose stored values are complete before publication and never written afterwards; per-call types (state, annotations, resolver) are not reachable from any shared type; no mutating reflect operation is reachable from Validate. It does NOT decide that concurrent results equal sequential results beyond what absence of shared writes implies, nor races inside the standard library.",
-		NotDecided: []string{"equality of concurrent and sequential results as an observed fact", "races inside the standard library or in user callbacks (Loader)", "writes performed through reflection by encoding/json on caller-supplied values"},
+		NotDecided:  []string{"equality of concurrent and sequential results as an observed fact", "races inside the standard library or in user callbacks (Loader)", "writes performed through reflection by encoding/json on caller-supplied values"},
 	})
 }
 
